@@ -60,7 +60,8 @@ LEVEL_NOTE = ("Model = RxModel/Comb.lean (uniform event rule, disposable plumbin
 "on_error_resume_next factories: the machine carries the scheduler `state` (predecessor's error / None) and records the argument of every consumed position "
 "(`calls`); the factories of the generated cases log the argument they receive and build a different source for an error than for None; compared with the model and "
 "checked by the oracle (oern_factory_argument is the Lean statement). for_in mappers raise InjectedError, StopIteration or KeyError. "
-"Unlogged failing sources (`rx.throw(ex)` in the source list) are generated for concat / catch / on_error_resume_next under the queued hand-over (item kind `fail`: "
+"User callables (catch handler, on_error_resume_next factories, for_in mapper, while_do condition) are generated in every form: def, lambda, functools.partial, bound "
+"method, object with __call__. Unlogged failing sources (`rx.throw(ex)` in the source list) are generated for concat / catch / on_error_resume_next under the queued hand-over (item kind `fail`: "
 "concat ends with their error, catch / on_error_resume_next continue over them; under the INLINE hand-over a chain of such sources is not modelled and not generated). "
 "A raising for_in mapper / while_do condition is the item kind `fail` (the code wraps it into a source that fails at once: defer / throw), a raising "
 "iterator or on_error_resume_next factory the kind `raise`. Sources that complete or FAIL inside subscribe are also generated under the queued hand-over and for catch(handler). Not modelled: futures as sources. Trusted: logging sources/tap, the event-list replay.")
@@ -93,7 +94,7 @@ def cases(rng, tier):
     for i in range(n):
         op = OPS[i % len(OPS)]
         kind = kind_of(op)
-        c = {"op": op, "dispose": cc.gen_dispose(rng, 0.2), "cut": None}
+        c = {"op": op, "dispose": cc.gen_dispose(rng, 0.2), "cut": None, "callable_form": rng.choice(cc.CALLABLE_FORMS)}
         if op in LIST_OPS:
             if op == "ops_concat":
                 k = rng.choice([1, 2, 3, 4])
@@ -228,7 +229,7 @@ def world_and_build(case):
                         raise InjectedError("factory")
                     return alt if (e is not None and alt is not None) else srcs[j]
 
-                return f
+                return cc.as_callable(f, case.get("callable_form", "def"))
 
             args = [factory(j) if (f or j == case.get("factory_raises_at")) else s_ for j, (s_, f) in enumerate(zip(srcs, case["factory"]))]
             return rx.on_error_resume_next(*args)
@@ -240,7 +241,7 @@ def world_and_build(case):
                     raise InjectedError("handler")
                 return srcs[1]
 
-            return srcs[0].pipe(ops.catch(handler))
+            return srcs[0].pipe(ops.catch(cc.as_callable(handler, case.get("callable_form", "def"))))
         if op == "start_with":
             orig = rx.from_iterable
 
@@ -264,7 +265,7 @@ def world_and_build(case):
                 return srcs[j]
 
             nvals = len(srcs) + (1 if case["mapper_raises_at"] == len(srcs) else 0)
-            return rx.for_in(list(range(nvals)), mapper)
+            return rx.for_in(list(range(nvals)), cc.as_callable(mapper, case.get("callable_form", "def")))
         src = cc.make_src(w, 0, case["src"])
         if op == "repeat":
             return src.pipe(ops.repeat(case["count"]))
@@ -280,10 +281,11 @@ def world_and_build(case):
                 return False
             return True
 
+        cond_ = cc.as_callable(cond, case.get("callable_form", "def"))
         if op == "while_do":
-            return src.pipe(ops.while_do(cond))
+            return src.pipe(ops.while_do(cond_))
         if op == "do_while":
-            return src.pipe(ops.do_while(cond))
+            return src.pipe(ops.do_while(cond_))
         raise ValueError(op)
 
     return w, build
@@ -547,6 +549,8 @@ def bucket(case, out):
     yield f"subs={min(5, len([1 for e in log if e[0] == 'sub']))}"
     yield "dispose=" + str(any(e[0] == "dispose" for e in log))
     yield "cut=" + str(case.get("cut") is not None)
+    if case["op"] in ("catch_handler", "oern", "for_in", "while_do", "do_while"):
+        yield "callable_form=" + case.get("callable_form", "def")
     calls = [e for e in log if e[0] == "call"]
     if calls:
         yield "factory_calls"
